@@ -1,19 +1,19 @@
 CONSTANTS
   RR = {"R1"}
-  Res = {}
-  FSlots = {"s1"}
-  Dyn <- Dyn12
-  Keys = {"k1"}
-  Prog <- ProgC1
-  Body <- BodyC1
+  Res = {"r1"}
+  FSlots = {}
+  Dyn <- Dyn8
+  Keys = {}
+  Prog <- ProgA1
+  Body <- NoBody
   AlwaysSpawn <- Inline1
   MaxBump = 1
-  MaxFail = 1
-  MaxTasks = 14
+  MaxFail = 0
+  MaxTasks = 12
   StopAllowed = {"R1"}
-  MaxStops = 1
+  MaxStops = 2
   ParentCancelAllowed = {}
-  StopWaits = TRUE
+  StopWaits = FALSE
 SPECIFICATION Spec
 INVARIANTS TaskBound NoOverlap StopFinal FreshAtQuiescence CleanupAtMostOnce NoCleanupWhileLive CleanupExactlyOnceAtQuiescence TrackerExact
 PROPERTIES StopFinalAct
